@@ -240,3 +240,16 @@ Definition digest (B : Z) (r : option rle) : Z :=
   | None => -1
   | Some (s, l, v) => fold_left (fun acc x => acc * B + (x + 2)) (s ++ [-1] ++ l ++ [-1] ++ v) 0
   end.
+
+(* ------------------------------------------------- bin-type / bin-size attributes *)
+From Cooler Require Import Model.Bins.
+
+(** create():  binsize = get_binsize(bins)
+      info["bin-type"] = "fixed" if binsize is not None else "variable"
+      info["bin-size"] = binsize if binsize is not None else "null"
+    returned as (is_fixed, bin-size) *)
+Definition info_bins (table : list bin) : bool * option Z :=
+  match get_binsize table with
+  | Some b => (true, Some b)
+  | None => (false, None)
+  end.
